@@ -12,11 +12,58 @@ import (
 )
 
 func init() {
-	register(&Prop{ID: "C42", Gen: genC42, Run: runPipe, Timeout: 120 * time.Second})
+	register(&Prop{ID: "C42", Gen: genC42, Run: runPipe, Timeout: 10 * time.Minute})
+}
+
+// more out-of-order arrivals than MaxPendingBlocks: they must be buffered (and reported on the
+// errors stream), never dropped
+func genC42PendingLimit(r *Rand) string {
+	mp := 1 + r.Intn(4)
+	dw := mp + 2 + r.Intn(4)
+	vw := Pick(r, 0, 0, dw)
+	var sb strings.Builder
+	fmt.Fprintf(&sb, "pipe dw=%d vw=%d buf=64 mp=%d | s:g:0:0:0:0:d", dw, vw, mp)
+	for k := mp + 1 + r.Intn(6); k > 0; k-- {
+		fmt.Fprintf(&sb, " s:%s:0:%d:0:0:-", pipeKind(r, vw), pipeLat(r))
+	}
+	sb.WriteString(" settle pc rel")
+	for k := r.Intn(3); k > 0; k-- {
+		sb.WriteString(" s:g:0:0:0:0:-")
+	}
+	return sb.String()
+}
+
+// Stop while the errors stream is full and nobody reads it: workers blocked on the
+// errors channel must give up on cancellation
+func genC42ErrorsFull(r *Rand) string {
+	dw := 1 + r.Intn(4)
+	vw := Pick(r, 0, 0, 1, 3)
+	buf := Pick(r, 1, 1, 2)
+	var sb strings.Builder
+	fmt.Fprintf(&sb, "pipe dw=%d vw=%d buf=%d | epause", dw, vw, buf)
+	// undecodable (and invalid) blocks: each produces an error; submissions beyond the
+	// pipeline's capacity give up after a few ms
+	for k := buf + dw + 1 + r.Intn(6); k > 0; k-- {
+		kind := "d"
+		if vw > 0 && r.Chance(1, 3) {
+			kind = "v"
+		}
+		fmt.Fprintf(&sb, " s:%s:%d:0:0:0:-", kind, Pick(r, 2, 3, -1))
+	}
+	sb.WriteString(Pick(r, " stop", " stopbg", " sleep:20 stop"))
+	return sb.String()
 }
 
 func genC42(r *Rand, n int, tier string, emit func(string)) {
 	for i := 0; i < n; i++ {
+		switch r.Intn(8) {
+		case 0:
+			emit(genC42PendingLimit(r))
+			continue
+		case 1:
+			emit(genC42ErrorsFull(r))
+			continue
+		}
 		dw := Pick(r, 1, 2, 3, 4, 8, 16, 1+r.Intn(16))
 		vw := Pick(r, 0, 1, 2, 4, 16, r.Intn(17))
 		buf := Pick(r, 1, 2, 4, 8, 64)
